@@ -81,7 +81,9 @@ class Harness:
     for i in range(7):
       cds[b'cl\x00' + bytes([65 + i])] = {'x': np.arange(i + 1, dtype=np.int32)}
     self.fd = fedjax.InMemoryFederatedData(cds)
-    self.cohort_size = 2
+    # half of the configurations use full participation: the cohorts then differ only in their ORDER (which decides which
+    # client gets which PRNG key), and the ordered tuple identifies the round
+    self.cohort_size = 7 if (num_rounds + ckpt_freq) % 2 == 0 else 2
     # cohort table: round number -> client ids (must be pairwise distinct to identify the round)
     self.seed = seed
     while True:
